@@ -846,6 +846,9 @@ var c07Directed = []struct {
 	{name: "lifted-sort-desc", text: `fork (=> where v<3 => where v>=3) | sort k desc`, input: `{k:1,v:1}{k:2,v:2}{k:null(int64),v:3}{k:3,v:4}`, mode: prog.ModeSorted, keys: []prog.SortKey{{Path: []string{"k"}, Desc: true}}},
 	{name: "lifted-sort-reverse", text: `fork (=> where v<3 => where v>=3) | sort -r k`, input: `{k:1,v:1}{k:2,v:2}{k:null(int64),v:3}{k:3,v:4}`, mode: prog.ModeSorted, keys: []prog.SortKey{{Path: []string{"k"}, Desc: true}}},
 	{name: "lifted-sort-nulls-first", text: `fork (=> where v<3 => where v>=3) | sort -nulls first k`, input: `{k:1,v:1}{k:2,v:2}{k:null(int64),v:3}{k:3,v:4}`, mode: prog.ModeSorted, keys: []prog.SortKey{{Path: []string{"k"}}}},
+	{name: "over-scope-head-done-after-input-ends", text: `n >= 2.5 | over a => (sum(this)) | where this >= 1 | head 1`, input: c07InOverHead, decl: &c07Declared{Field: "ts"}, mode: prog.ModeSequence},
+	{name: "fork-leg-head-done-while-other-leg-has-eos", text: `ts > 1970-01-01T05:00:00Z | fork (=> pass => tail 8 | head 6) | search x | over a | where this == 0 | pass`, input: c07InForkHead, decl: &c07Declared{Field: "s", Desc: true}, mode: prog.ModeMultiset},
+	{name: "fork-leg-over-head-done-while-other-leg-has-eos", text: `fork (=> pass => over a with id => (yield {id,e:this}) | head 8) | m1:=sum(id), m2:=count() where has(id) and id >= 4 | sort m1 desc, m2 | sort -nulls first m2`, input: c07InForkOverHead, decl: &c07Declared{Field: "g"}, mode: prog.ModeSequence},
 }
 
 func c07DirectedCase(c *rt.Ctx, o *rt.Obs, i int) {
